@@ -107,8 +107,10 @@ class World:
         "the basis the object claims to be in",
     ]
     rule = ("program = seeded list of enter/exit (real nested `with`), create, read, write, poke, protect/unprotect, apply, copy, "
-            "secularize, convert and fault ops over a pool of live basis-managed objects (dim 2..4, generic / degenerate / diagonal / "
-            "complex-Hermitian context operators); thorough tier re-runs each sampled program with a user exception placed at "
+            "secularize, convert, library propagation, API sweeps, evolution.at / superoperator.at / dipole components, refused "
+            "constructions, context-manager objects built ahead / entered again / re-entered, second objects on one array, "
+            "re-initialised evolutions and fault ops over a pool of live basis-managed objects (dim 2..4, generic / degenerate / "
+            "diagonal / complex-Hermitian context operators; one SystemBathInteraction per run; basis-change reports on in 10 %); thorough tier re-runs each sampled program with a user exception placed at "
             "every position; non-trivial = >=1 context entered and >=1 object accessed or created inside it; distinct = distinct "
             "event-log digests among non-trivial runs")
 
